@@ -1350,6 +1350,17 @@ class Sym:
             # the result depends on a type argument that no value argument determines (`s.parse::<u32>()`)
             name += "::<%s>" % self.subst_ty(f["targs"][-1])
         if not mut_idx:
+            if self.thread_places:
+                # a read-only std call on a `&mut` parameter of an inlined helper (`section.len()`): it sees the value the
+                # caller's place holds at this point, not "the place"
+                cur_vals = []
+                for v_ in vals:
+                    if v_[0] == "place":
+                        cur = self.pread(st, v_[1], tuple(v_[2]))
+                        if cur is not None:
+                            v_ = cur
+                    cur_vals.append(v_)
+                vals = cur_vals
             return [(st, (VAL, ("call", name, tuple(vals))))]
         s = st.copy()
         s.n += 1
